@@ -47,8 +47,9 @@ func edgeSection(o *hlib.Out, seed uint64) {
 	prefix := fmt.Sprintf("c10-edge-%d-", seed)
 	for ki, kind := range kinds {
 		for si, ps := range psets {
-			// quick: two scans (an accept and a reject edge, rotating with the seed); thorough: every edge on every set
-			if !hlib.Thorough() && !(ki == int(seed%6) && si == int(seed%3) || ki == int((seed+3)%6) && si == int((seed+1)%3)) {
+			// quick: one scan (edge and parameter set rotate with the seed; ≈ 12 ms per scanned message in the reference);
+			// thorough: every edge on every set
+			if !hlib.Thorough() && !(ki == int(seed%6) && si == int(seed/6%3)) {
 				continue
 			}
 			k := keys[si]
